@@ -1177,6 +1177,7 @@ void OPNMIDIplay::noteUpdate(size_t midCh,
         if(props_mask & Upd_Patch)
         {
             synth.setPatch(c, ins.ains);
+            m_chipChannels[c].levelled = false;
             OpnChannel::users_iterator ci = m_chipChannels[c].find_or_create_user(my_loc);
             if(!ci.is_end())    // inserts if necessary
             {
@@ -1216,6 +1217,7 @@ void OPNMIDIplay::noteUpdate(size_t midCh,
                     if(props_mask & Upd_Mute) // Mute the note
                     {
                         synth.touchNote(c, 0);
+                        m_chipChannels[c].levelled = false;
                         m_chipChannels[c].koff_time_until_neglible_us = 0;
                     }
                     else
@@ -1240,10 +1242,19 @@ void OPNMIDIplay::noteUpdate(size_t midCh,
             continue;
         }
 
-        if(props_mask & Upd_Pan)
+        // A note that keys on a chip channel whose panning and levels were written for another note
+        // (one it shares or shared the channel with) brings its own along
+        bool takesOver = false;
+        if((props_mask & Upd_Pitch) && (!m_chipChannels[c].levelled || m_chipChannels[c].levelled_for != my_loc))
+        {
+            OpnChannel::users_iterator d = m_chipChannels[c].find_user(my_loc);
+            takesOver = d.is_end() || ((d->value.sustained & OpnChannel::LocationData::Sustain_Pedal) == 0);
+        }
+
+        if((props_mask & Upd_Pan) || takesOver)
             synth.setPan(c, m_midiChannels[midCh].panning);
 
-        if(props_mask & Upd_Volume)
+        if((props_mask & Upd_Volume) || takesOver)
         {
             const MIDIchannel &ch = m_midiChannels[midCh];
             bool is_percussion = (midCh == 9) || ch.is_xg_percussion;
@@ -1263,6 +1274,8 @@ void OPNMIDIplay::noteUpdate(size_t midCh,
                             ch.volume,
                             ch.expression,
                             static_cast<uint8_t>(brightness));
+            m_chipChannels[c].levelled_for = my_loc;
+            m_chipChannels[c].levelled = true;
         }
 
         if(props_mask & Upd_Pitch)
